@@ -17,7 +17,7 @@ python3 translators/schema_to_lean.py "$V/.build/schema.json"
 (cd lean && lake build SIM driver)
 for p in lean/SIM/Props/*.lean; do m=$(basename "$p" .lean); (cd lean && lake build "SIM.Props.$m") ; done
 cp /repo/Cargo.lock harness/rt/Cargo.lock 2>/dev/null || true
-(cd harness/rt && CARGO_TARGET_DIR="$V/.build/rt" cargo build --offline --quiet && CARGO_TARGET_DIR="$V/.build/rt-docs" cargo build --offline --quiet --features docs)
+(cd harness/rt && CARGO_TARGET_DIR="$V/.build/rt" cargo build --offline --quiet && CARGO_TARGET_DIR="$V/.build/rt-docs" cargo build --offline --quiet --features docs && CARGO_TARGET_DIR="$V/.build/rt-min" cargo build --offline --quiet --no-default-features)
 python3 harness/gen/gen_std.py --seed 1 --n 20 --out harness/progs/pg/src/gen_std.rs 2>/dev/null
 python3 harness/gen/gen_derive.py --seed 1 --n 10 --out harness/progs/pg/src/gen_derive.rs 2>/dev/null
 cp /repo/Cargo.lock harness/progs/pg/Cargo.lock 2>/dev/null || true
